@@ -74,6 +74,11 @@ func vT16Conn(srv *Server, r int) {
 		}
 		stall = true
 		r = 1
+	} else if r == -5 {
+		// scenario 6: a well-framed message with a malformed body (a Query without
+		// its terminator): the command ends with an error and so does the session
+		input = vMsgBytes('Q', []byte("no terminator"))
+		r = 1
 	} else if r == -4 {
 		// scenario 5: an extended-query cycle in progress — Parse, Parse, Sync —
 		// so that a Close may fall between two messages of one cycle
